@@ -288,6 +288,6 @@ fn main() {
 	let reg: Vec<Case> = check.regression_cases("stress");
 	check.enumerate("regressions", reg, false, oracle);
 	let max_calls = check.cases(400, 1500) as u16;
-	check.phase("stress", check.cases(2000, 60_000), || strategy(max_calls), oracle);
+	check.phase("stress", check.cases(6000, 100_000), || strategy(max_calls), oracle);
 	check.finish();
 }
